@@ -157,7 +157,7 @@ def one (p : Parsed R) (gs : List (Grid.GridObj R)) (dir : Dir) (cart : Coor R) 
     if raw then
       some { deformation with c3 := Scalar.sqrt (deformation.c0 * deformation.c0 + deformation.c1 * deformation.c1
         + deformation.c2 * deformation.c2 + deformation.c3 * deformation.c3) }
-    else some (Coor.add cart deformation)
+    else some { Coor.add cart deformation with c3 := cart.c3 }   -- (the epoch comes back as it was given)
   | none => if p.flagSet (S "null_grid") then some cart else none
 
 def sem (genv : Grid.GridEnv R) (p : Parsed R) (dir : Dir) (data : List (Coor R)) : List (Coor R) × Nat :=
